@@ -14,6 +14,12 @@ ENGINES = [
 NOTES = "Property-based testing and fuzzing only. See DESIGN.md. Known findings: /verif/known_findings.json."
 NOT_APPLICABLE = {}
 CHECKS = {
+    "C10": {
+        "text": "Finite enumeration (435k trees: every parent/slot/child and parent/slot/child/slot/grandchild combination and every binary parent with two compound children over 49 constructors incl. the desugared shapes) of hand-built Core trees printed by mamba's Display, plus random deeper trees and end-to-end Mamba expressions in 10 statement contexts; round-trip oracle: CPython's ast.parse of the printed text must equal the tree. The enumeration is complete for its stated sub-space; deeper trees are sampled.",
+        "design_ref": "DESIGN.md section 6 C10, appendix A",
+        "note": "Trusted: CPython 3.11 ast.parse as definition of Python grouping; the Core->ast table (appendix A); and/or compared after flattening same-operator chains. Invalid emitted Python is left to C02.",
+        "technique": "property-based testing: exhaustive small-scope enumeration + random trees + end-to-end round-trip through CPython's parser (Hypothesis)",
+    },
     "C18": {
         "text": "Exhaustive enumeration of all ordered pairs of the token vocabulary (38k inputs, both spacings, two indents) plus ~40k generated inputs per quick run (mutated samples, random vocabulary sequences, random layouts with empty/multi-line/interpolated strings, doc-strings, CRLF) through the guarded lexer hook; each accepted input is judged by a span/spelling/order/balance/round-trip oracle written against the source text, not against the lexer.",
         "design_ref": "DESIGN.md section 6 C18",
